@@ -18,7 +18,7 @@ tvars == <<vars, i>>
 
 Ev == Rec[i]
 
-Norm(r) == [id |-> r.id, node |-> r.node, ts |-> r.ts, kind |-> r.kind, forge |-> r.forge]
+Norm(r) == [id |-> r.id, node |-> r.node, ts |-> r.ts, kind |-> r.kind, addrs |-> r.addrs, forge |-> r.forge]
 
 NodesOf(seq) == {seq[k] : k \in 1..Len(seq)}
 
@@ -35,11 +35,13 @@ Observed ==
 
 StepInsertTransportInfo ==
     /\ Ev.ev = "InsertTransportInfo"
+    /\ WellFormed(Norm(Ev.rec))
     /\ InsertTransportInfo(Norm(Ev.rec))
     /\ Observed
 
 StepInsertNodeInfo ==
     /\ Ev.ev = "InsertNodeInfo"
+    /\ WellFormed(Norm(Ev.rec))
     /\ InsertNodeInfo(Norm(Ev.rec), Ev.flag)
     /\ Observed
 
